@@ -6,7 +6,7 @@ from hypothesis import strategies as st
 
 from pbt import gen, ci as cim, im as imm, ti as tim, manifests as mf
 from pbt.props import c06
-from pbt.runner import must, check, Violation
+from pbt.runner import must, check, Violation, HarnessError
 
 PROPERTY = "C07"
 LEVEL = "exploration"
@@ -267,8 +267,6 @@ def must_reject(fmt, text, label, via_file=False):
                 shutil.rmtree(tmp, ignore_errors=True)
         else:
             obj.loads(text)
-    except RecursionError:
-        raise Violation("corrupted-document-recursion", "%s: %s: RecursionError" % (fmt, label))
     except Exception:  # noqa  ("rejected with an exception": the type is not constrained)
         return
     raise Violation("corrupted-document-loaded", "%s document with %s was returned as a successfully loaded object" % (fmt, label))
@@ -426,9 +424,7 @@ def meta_case(case):
     obj = cls()
     try:
         obj.loads(mutated)
-    except RecursionError:
-        raise Violation("load-recursion", "RecursionError while loading a mutated %s document" % fmt)
-    except Exception:  # noqa
+    except Exception:  # noqa  (any exception is a rejection, RecursionError for a self-referential legacy file included)
         return {"nontrivial": True, "labels": [fmt, "rejected"]}
     # the load succeeded: everything obtained from it must satisfy what writing enforces
     first = must("loaded-object-cannot-be-written[%s]" % fmt, (lambda: tim.dump_text(obj, None)) if fmt == "treeinfo" else obj.dumps)
@@ -447,10 +443,75 @@ def c08_diff(a, b):
     return "length %d vs %d lines" % (len(la), len(lb))
 
 
+def text_case(case):
+    """the metamorphic oracle on a raw document text (replay of a coverage-guided finding)"""
+    fmt, text = case["format"], case["text"]
+    cls = loader(fmt)
+    obj = cls()
+    try:
+        obj.loads(text)
+    except Exception:  # noqa  (any exception is a rejection, RecursionError for a self-referential legacy file included)
+        return {"nontrivial": True, "labels": [fmt, "rejected"]}
+    dump = (lambda o: tim.dump_text(o, None)) if fmt == "treeinfo" else (lambda o: o.dumps())
+    first = must("loaded-object-cannot-be-written[%s]" % fmt, dump, obj)
+    again = cls()
+    must("written-document-cannot-be-reloaded[%s]" % fmt, again.loads, first)
+    second = must("reloaded-object-cannot-be-written[%s]" % fmt, dump, again)
+    check(first == second, "second-dump-differs[%s]" % fmt, lambda: c08_diff(first, second))
+    return {"nontrivial": True, "labels": [fmt, "load-succeeded"]}
+
+
+def atheris_campaign(ctx, runs):
+    """thorough tier: one libFuzzer process per worker, coverage-guided over the readers (pbt/fuzz_c07.py)"""
+    import os
+    import shutil
+    import subprocess
+    import sys
+    import tempfile
+    from pbt.runner import VERIF_DIR, REPO
+    sub = ctx.sub("atheris")
+    try:
+        sys.path.insert(0, os.path.join(VERIF_DIR, ".deps"))
+        import atheris  # noqa
+    except Exception as exc:  # noqa
+        if ctx.shard == 0:
+            sub.notes.append("atheris not importable here (%s): coverage-guided campaign skipped" % exc)
+        return
+    out = tempfile.mkdtemp(prefix="c07-fuzz-")
+    try:
+        os.mkdir(os.path.join(out, "corpus"))
+        env = dict(os.environ, PYTHONPATH=VERIF_DIR + os.pathsep + os.path.join(VERIF_DIR, ".deps"), VERIF_REPO=REPO, PYTHONHASHSEED="0")
+        seed = (ctx.seed * 1000 + ctx.shard) % (2 ** 31 - 1) + 1
+        proc = subprocess.run([sys.executable, "-m", "pbt.fuzz_c07", out, "-runs=%d" % runs, "-seed=%d" % seed, "-max_len=64", os.path.join(out, "corpus")],
+                              capture_output=True, text=True, env=env, cwd=VERIF_DIR, timeout=7200)
+        stats = {"execs": 0, "loaded": 0}
+        if os.path.exists(os.path.join(out, "stats.json")):
+            stats = json.load(open(os.path.join(out, "stats.json")))
+        sub.evaluations += stats["execs"]
+        sub.labels["load-succeeded"] += stats["loaded"]
+        cov = [l for l in proc.stderr.split("\n") if " cov: " in l]
+        corpus = sorted(os.listdir(os.path.join(out, "corpus")))
+        for name in corpus:
+            sub.nontrivial.add(name[:16])          # libFuzzer keeps an input only when it reached new coverage
+        sub.labels["nontrivial"] += len(corpus)
+        if cov and ctx.shard == 0:
+            sub.notes.append("libFuzzer -runs=%d -seed=%d per worker; last status: %s" % (runs, seed, cov[-1].strip()[:120]))
+            sub.samples.append({"corpus_inputs_hex": [open(os.path.join(out, "corpus", n), "rb").read().hex() for n in corpus[:3]]})
+        if os.path.exists(os.path.join(out, "violation.json")):
+            v = json.load(open(os.path.join(out, "violation.json")))
+            ctx._violation("atheris", {"format": v["format"], "text": v["text"]}, Violation(v["bucket"] + "[%s]" % v["format"], v["message"]))
+        elif proc.returncode != 0:
+            raise HarnessError("atheris campaign failed (exit %d):\n%s" % (proc.returncode, proc.stderr[-1500:]))
+    finally:
+        shutil.rmtree(out, ignore_errors=True)
+
+
 def run(ctx):
     ctx.forall("corruption", case_strategy, corruption_case, ctx.n(2400, 64000))
     ctx.sweep("neighbourhood-sweep", sweep_cases(), sweep_case, exhaustive=True, stop_after=8)
     ctx.forall("metamorphic", meta_strategy, meta_case, ctx.n(2400, 64000))
+    if ctx.thorough and ctx.wanted("atheris"):
+        atheris_campaign(ctx, 40000)
 
 
-REPLAY = {"corruption": corruption_case, "neighbourhood-sweep": sweep_case, "metamorphic": meta_case}
+REPLAY = {"corruption": corruption_case, "neighbourhood-sweep": sweep_case, "metamorphic": meta_case, "atheris": text_case}
